@@ -88,7 +88,7 @@ def operand_rules(tier):
 
 def deref_rules(tier):
     rules = []
-    regs, scales, offs = ["rax", "rbx", "%rcx"], [4, 8, "0x4"], ["0x8", "8", "0x10", "-0x10", "-8", 8]
+    regs, scales, offs = ["rax", "rbx", "%rcx"], [4, 8, "0x4"], ["0x8", "8", "0x10", "-0x10", "-8", 8, -8]
     fields = {"main_reg": regs, "register_multiplier": regs, "constant_multiplier": scales, "constant_offset": offs}
     full = {"main_reg": "rax", "register_multiplier": "rbx", "constant_multiplier": 4, "constant_offset": "0x8"}
     for f, vals in fields.items():
